@@ -194,6 +194,8 @@ pub struct MapOps<M> {
     pub op: OpKind,
     pub len: usize,
     pub keys: u8,
+    /// warm start (not counted): all keys present, observed, stabilised, emptied, stabilised
+    pub warm_emptied: bool,
     pub ph: PhantomData<fn() -> M>,
 }
 
@@ -202,7 +204,7 @@ where
     M: MapT<SV> + SymmetricFoldMap<u8, SV> + SymmetricMapMap<u8, SV, OutputMap<SV> = M>,
 {
     fn name(&self) -> String {
-        format!("maps/{:?}/{}", self.op, M::NAME).replace(' ', "")
+        format!("maps/{:?}/{}{}", self.op, M::NAME, if self.warm_emptied { "/warm_emptied" } else { "" }).replace(' ', "")
     }
     fn run(&self) {
         let op = self.op;
@@ -330,6 +332,25 @@ where
                 seen = Some(model.iter().filter(|(k, v)| decide_pred(P_FILTERI, &[lit(**k), (*v).clone()])).map(|(k, v)| (*k, app(F_MAPI, &[lit(*k), v.clone()]))).collect());
                 log.borrow_mut().clear();
                 op_log("(warm start: Refill, Observe, Stabilise)".into());
+            }
+            if self.warm_emptied {
+                for k in 0..self.keys {
+                    model.insert(k, fresh());
+                }
+                keep.input.set(M::from_b(&model));
+                match &mut keep.out {
+                    Out::MapLike(n, o) => *o = Some(n.observe()),
+                    Out::Fold(n, o) => *o = Some(n.observe()),
+                }
+                keep.state.stabilise();
+                model.clear();
+                keep.input.set(M::from_b(&model));
+                keep.state.stabilise();
+                in_use = true;
+                seen = Some(B::new());
+                log.borrow_mut().clear();
+                cover("operator-emptied-before-the-history");
+                op_log("(warm start: Refill, Observe, Stabilise, Clear, Stabilise)".into());
             }
             for step in 0..=self.len {
                 #[derive(Clone, Debug)]
